@@ -5,6 +5,7 @@ import SamplyModel.Lemmas.ProfileFrameDesc
 import SamplyModel.Lemmas.ProfileNsym
 import SamplyModel.Lemmas.ProfileAddrFrame
 import SamplyModel.Lemmas.ProfileSymFrame
+import SamplyModel.Lemmas.ProfileStackDecode
 /-!
 # C03 — every serialized profile is internally consistent (no dangling index)
 
@@ -413,6 +414,75 @@ theorem C03_canonical_symbol_frame (pre post : List Op) (t : Nat) (a : AddrSpec)
   obtain ⟨th', ht', hk', hd'⟩ := C03_frame_desc_stable _ post h t i th2 k d ht2 hk2 hdesc
   obtain ⟨st, hst, htid, hdec⟩ := C03_frame_decode _ h s hs t th' ht'
   exact ⟨d, hd, th', st, ht', hst, htid, by rw [hdec i k hk', hd']⟩
+
+/-- **Canonical interning, end to end.** A stack handle returned by `handle_for_stack_frames(thread, frames)`
+decodes, in the profile serialized at the end of every accepted continuation, to the decodings of the frame
+handles that were passed, in order — and each of those is pinned to what the caller described by
+`C03_canonical_label_frame` / `C03_canonical_address_frame` / `C03_canonical_symbol_frame`. -/
+theorem C03_canonical_stack_decoded (pre post : List Op) (t : Nat) (frames : List TH) (i : Nat)
+    (h : Accepted (pre ++ .stackFrames t frames :: post) = true)
+    (hout : (step (run pre) (.stackFrames t frames)).2 = .h [t, i])
+    (s : SerProfile) (hs : serialize (run (pre ++ .stackFrames t frames :: post)) = some s) :
+    ∃ th st, (run (pre ++ .stackFrames t frames :: post)).threads[t]? = some th ∧ st ∈ s.threads ∧
+      st.tid = idString th.tid ∧
+      decodeStack s st i = mapM' (fun f : TH => decodeFrame s st f.2) frames := by
+  have hcan := C03_canonical_stack_frames pre post t frames i h hout
+  cases hth : (run (pre ++ .stackFrames t frames :: post)).threads[t]? with
+  | none => simp [P.stackFrames?, hth] at hcan
+  | some th =>
+    obtain ⟨st, hst, htid, hdec⟩ := decodeStack_of_inv _ (Inv.run _ h).2 s hs t th hth
+    refine ⟨th, st, rfl, hst, htid, ?_⟩
+    rw [hdec i, hcan, Option.bind_some, mapM'_map_eq]
+
+/-- the same for `handle_for_stack(thread, frame, parent)`: the parent's decoding followed by the frame's -/
+theorem C03_canonical_stack_push_decoded (pre post : List Op) (t : Nat) (frame : TH) (parent : Option TH) (i : Nat)
+    (h : Accepted (pre ++ .stack t frame parent :: post) = true)
+    (hout : (step (run pre) (.stack t frame parent)).2 = .h [t, i])
+    (s : SerProfile) (hs : serialize (run (pre ++ .stack t frame parent :: post)) = some s) :
+    ∃ th st, (run (pre ++ .stack t frame parent :: post)).threads[t]? = some th ∧ st ∈ s.threads ∧
+      st.tid = idString th.tid ∧
+      decodeStack s st i =
+        (match parent with
+         | none => some []
+         | some par => if par.1 = t then decodeStack s st par.2 else none).bind
+          (fun r => (decodeFrame s st frame.2).map (fun y => r ++ [y])) := by
+  have hcan := C03_canonical_stack pre post t frame parent i h hout
+  cases hth : (run (pre ++ .stack t frame parent :: post)).threads[t]? with
+  | none =>
+    -- the returned handle's thread exists
+    exfalso
+    obtain ⟨hpre, hv⟩ := C03_accepted_split pre _ post h
+    simp only [handlesValid, Bool.and_eq_true, decide_eq_true_eq] at hv
+    have hlt := hv.1.1
+    obtain ⟨th', ht', _⟩ := ext_of_accepted pre (.stack t frame parent :: post) h |>.threads t _
+      (List.getElem?_eq_getElem hlt)
+    rw [hth] at ht'
+    cases ht'
+  | some th =>
+    obtain ⟨st, hst, htid, hdec⟩ := decodeStack_of_inv _ (Inv.run _ h).2 s hs t th hth
+    refine ⟨th, st, rfl, hst, htid, ?_⟩
+    rw [hdec i, hcan]
+    cases parent with
+    | none =>
+      simp only [P.extendFrames?, Option.bind_some, mapM']
+      cases decodeFrame s st frame.2 <;> rfl
+    | some par =>
+      obtain ⟨pt, pi⟩ := par
+      -- a returned handle means the parent belongs to thread `t`
+      have hpt : pt = t := by
+        by_cases hne : pt = t
+        · exact hne
+        · exfalso
+          simp only [step, P.stack] at hout
+          split at hout
+          · simp at hout
+          · simp [hne] at hout
+      subst hpt
+      simp only [P.extendFrames?, if_true]
+      rw [hdec pi]
+      cases hp : (run (pre ++ .stack pt frame (some (pt, pi)) :: post)).stackFrames? (pt, pi) with
+      | none => simp
+      | some l => simp only [Option.map_some, Option.bind_some, mapM'_append_one]
 
 /-- **Frame handles are stable.** The frame key behind a valid frame handle is the same at the end of any
 continuation of the history. -/
